@@ -3,6 +3,7 @@ package main
 import (
 	"bytes"
 	"fmt"
+	"slices"
 
 	"github.com/berquerant/crd/desc"
 	"github.com/berquerant/crd/errorx"
@@ -213,7 +214,12 @@ crd info key conv --key "C" -c "ps"`,
 			return err
 		}
 
+		keys := []string{}
 		for x := range result.Keys().All() {
+			keys = append(keys, x.String())
+		}
+		slices.Sort(keys)
+		for _, x := range keys {
 			if _, err := fmt.Fprintf(out, "%v\n", x); err != nil {
 				return err
 			}
